@@ -55,4 +55,73 @@ Definition source_page (v : jv) : option (option (option url) * page pref pref) 
       else match coll_page o id with Some pg => Some (None, pg) | None => None end
   | (FUErr _, _, _) => None
   end.
+(* ---- what an opened reference turns into (pub.New), as far as provenance goes: the kind of item and, for the post or actor
+   that bears the content - for an activity its target, pub.getPostOrActor - the id it is shown under and its "name".
+   An activity's object that is an inline Create is unwrapped first (Lemmy); the reference found is resolved against the
+   ACTIVITY's id, never against anything the inline wrapper claims. *)
+Definition s_object : text := [111;98;106;101;99;116]%N.
+Definition s_name : text := [110;97;109;101]%N.
+Definition s_Create : text := [67;114;101;97;116;101]%N.
+Definition s_Tombstone : text := [84;111;109;98;115;116;111;110;101]%N.
+Definition t_failure : text := [102;97;105;108;117;114;101]%N.
+Definition t_post : text := [112;111;115;116]%N.
+Definition t_actor : text := [97;99;116;111;114]%N.
+Definition t_activity : text := [97;99;116;105;118;105;116;121]%N.
+Definition t_other : text := [111;116;104;101;114]%N.
+Definition BAR : N := 124.
+
+Definition field_text (o : obj) (k : text) : text := match get_string o k with Present s => s | _ => [] end.
+Definition id_text (id : option url) : text := match id with Some u => u | None => [] end.
+
+(* a post or an actor, or nothing (Tombstone, another type, no type) *)
+Definition leaf_summary (o : obj) (id : option url) : option text :=
+  match get_string o k_type with
+  | Present k =>
+      if existsb (text_eqb k) actor_kinds then Some (t_actor ++ [BAR] ++ id_text id ++ [BAR] ++ field_text o s_name)
+      else if existsb (text_eqb k) post_kinds then Some (t_post ++ [BAR] ++ id_text id ++ [BAR] ++ field_text o s_name)
+      else None
+  | _ => None
+  end.
+
+(* pub.getPostOrActor(activity, "object", activity id): the reference that is resolved *)
+Definition target_ref (act : obj) : option jv :=
+  match get_any act s_object with
+  | Present (JObj m) =>
+      match get_string m k_type with
+      | Present k =>
+          if text_eqb k s_Create then match get_any m s_object with Present r => Some r | _ => None end
+          else Some (JObj m)
+      | _ => None
+      end
+  | Present r => Some r
+  | _ => None
+  end.
+
+Definition activity_target (c : cache) (act : obj) (act_id : option url) : option text * cache * list url :=
+  match target_ref act with
+  | Some r =>
+      match fetch_unknown W is_https resolve cap parse_ref url_parse host_of c r act_id with
+      | (FUOk o id, c', log) => (leaf_summary o id, c', log)
+      | (FUErr _, c', log) => (None, c', log)
+      end
+  | None => (None, c, [])
+  end.
+
+(* what pub.New makes of a resolved reference; posts with authors, parents or replies and actors with outboxes (further
+   fetches) are outside this summary: the generator does not make them *)
+Definition opened_summary (c : cache) (r : fu_result) : text * cache * list url :=
+  match r with
+  | FUErr _ => (t_failure, c, [])
+  | FUOk o id =>
+      match leaf_summary o id with
+      | Some t => (t, c, [])
+      | None =>
+          if kind_in activity_kinds o then
+            match activity_target c o id with
+            | (Some t, c', log) => (t_activity ++ [62%N] ++ t, c', log)
+            | (None, c', log) => (t_activity ++ [62%N] ++ t_failure, c', log)
+            end
+          else match coll_page o id with Some _ => (t_other, c, []) | None => (t_failure, c, []) end
+      end
+  end.
 End Open.
